@@ -526,6 +526,11 @@ def main():
     kwargs_objects(run, hvsrpy, hook)
     replot_after_change(run, hvsrpy, hook)
     diffuse_field_objects(run, hvsrpy, hook)
+    # ---- read-only with respect to EVERY object alive, not only the one that is drawn (spec/TraceResultHeap.tla): sessions in which
+    #      traditional, azimuthal and diffuse-field results with histories are plotted, summarised and assessed between other operations
+    import resultheap
+    resultheap.run_sessions(run, hvsrpy, "C20-result-heap", dict(new_trad=1, new_diffuse=1, assemble=2, update_range=4, reject=4, read_only=12, read=1),
+                            dict(statistics=2, mean_curve_peak_bounded=1, single_panel=2, summary=2, azimuthal_figures=2, sesame=1, write=2), 16 if run.quick else 160, 16, "result-heap")
     return run.finish(
         rule="states of the exported HvsrObject graphs reached on real traditional / 2-azimuth objects; at every k-th state "
              "the single-panel plot (all options on), summary table, pre/post-rejection figure, waveform plot resp. the three "
